@@ -9,8 +9,11 @@ tie     : Gen_Twins.v regenerated from the source on every run (inspect + ast + 
           as the real channel_authenticate_telnet/_ssh of both stacks.
 observed: paired scenarios through the real sync and asyncio driver stacks over SimDevice (incl. multi-event
           interactive dialogues, c06_pairs.DialogDevice), the two real Telnet transports over scripted sockets, and
-          three runtime probes — compared with each other directly.  A broken twin-diff obligation for function F
-          makes focus_search run the scenario families that exercise F (c06_pairs.FN_FAMILY) with extra seeds."""
+          three runtime probes — compared with each other directly.  Lists with repeated entries under eager on/off
+          (send_commands / send_configs / send_config / *_from_file) and per-call timeout_ops x device latency in scripted
+          time (c06_pairs.VClock / VirtualLoop: the real timeout decorators of both stacks run, nothing sleeps) are two of
+          the scenario families.  A broken twin-diff obligation for function F makes focus_search run the scenario
+          families that exercise F (c06_pairs.FN_FAMILY) with extra seeds."""
 import asyncio
 import json
 import os
@@ -27,6 +30,7 @@ SOURCES = [
     "scrapli/driver/generic/sync_driver.py", "scrapli/driver/generic/async_driver.py",
     "scrapli/driver/network/sync_driver.py", "scrapli/driver/network/async_driver.py",
     "scrapli/transport/plugins/telnet/transport.py", "scrapli/transport/plugins/asynctelnet/transport.py",
+    "scrapli/decorators.py",
 ] + ["scrapli/driver/core/%s/%s_driver.py" % (p, s)
      for p in ("cisco_iosxe", "cisco_iosxr", "cisco_nxos", "arista_eos", "juniper_junos") for s in ("sync", "async")]
 
@@ -371,7 +375,35 @@ def _tally(dist, sc, a):
     elif sc["device"].get("refuse") or sc["device"].get("ignore"):
         fk = "refuse/ignore"
     dist["faults"][fk] = dist["faults"].get(fk, 0) + 1
+    T = sc.get("driver_kwargs", {}).get("timeout_ops", 0)
+    lat = sc["device"].get("latency") or {}
+    if T or lat:
+        tm = dist["timeouts"]
+        tm["scenarios"] += 1
+        tm["connection_timeout_ops"][str(T)] = tm["connection_timeout_ops"].get(str(T), 0) + 1
+        tm["slow_lines_hist"][len(lat)] = tm["slow_lines_hist"].get(len(lat), 0) + 1
     for op, o in zip(sc["ops"], a["ops"]):
+        kw = op[2] if len(op) > 2 and isinstance(op[2], dict) else {}
+        if "timeout_ops" in kw:
+            tm = dist["timeouts"]
+            v = kw["timeout_ops"]
+            rel = ("None" if v is None else "0" if v == 0 else "same" if v == T else "smaller" if (T and v < T) else "larger" if T else "set")
+            tm["per_call"][rel] = tm["per_call"].get(rel, 0) + 1
+            tm["per_call_ops"][op[0]] = tm["per_call_ops"].get(op[0], 0) + 1
+            oc = o[1] if o[0] == "exc" else o[0]
+            tm["per_call_outcomes"][oc] = tm["per_call_outcomes"].get(oc, 0) + 1
+        if op[0] in ("send_commands", "send_configs", "send_commands_from_file", "send_configs_from_file", "send_config"):
+            lines = op[1].split("\n") if isinstance(op[1], str) else list(op[1])
+            if len(lines) > 1:
+                ls = dist["lists"]
+                ls["lists"] += 1
+                ls["eager"][str(kw.get("eager"))] = ls["eager"].get(str(kw.get("eager")), 0) + 1
+                ls["with_adjacent_repeat"] += 1 if any(x == y for x, y in zip(lines, lines[1:])) else 0
+                ls["with_repeat_apart"] += 1 if any(lines[i] in lines[i + 2:] for i in range(len(lines))) else 0
+                ls["last_entry_earlier"] += 1 if lines[-1] in lines[:-1] else 0
+                ls["last_entry_earlier_and_eager"] += 1 if (lines[-1] in lines[:-1] and kw.get("eager")) else 0
+                ls["with_promptless_lines"] += 1 if any(x in (sc["device"].get("dialogs") or {}) for x in lines) else 0
+                ls["ops"][op[0]] = ls["ops"].get(op[0], 0) + 1
         dist["ops"][op[0]] = dist["ops"].get(op[0], 0) + 1
         dist["op_outcomes"][o[0]] = dist["op_outcomes"].get(o[0], 0) + 1
         if o[0] == "exc":
@@ -397,6 +429,10 @@ def _tally(dist, sc, a):
 
 def _new_dist():
     return {"scenarios": 0, "kinds": {}, "families": {}, "policies": {}, "faults": {}, "ops": {}, "op_outcomes": {}, "exceptions": {},
+            "lists": {"lists": 0, "eager": {}, "with_adjacent_repeat": 0, "with_repeat_apart": 0, "last_entry_earlier": 0,
+                      "last_entry_earlier_and_eager": 0, "with_promptless_lines": 0, "ops": {}},
+            "timeouts": {"scenarios": 0, "connection_timeout_ops": {}, "slow_lines_hist": {}, "per_call": {}, "per_call_ops": {},
+                         "per_call_outcomes": {}},
             "interactive": {"dialogues": 0, "events_hist": {}, "same_response_in_a_row": 0, "hidden_inputs": 0,
                             "with_complete_patterns": 0, "outcomes": {}, "device_skipped_a_question": 0,
                             "device_refused_an_answer": 0, "left_open": 0, "hidden_answers_typed": 0}}
@@ -412,7 +448,11 @@ def _run_pairs(rep, P, scs, dist, label, reported, limit=3):
         _tally(dist, sc, a)
         rep.case(("pair", json.dumps(sc, sort_keys=True)), nontrivial=len(a["device_log"]) > 0)
         d = P.diff_obs(a, b)
-        if d:
+        sig = P.known_signature(sc, a, b, d) if d else None
+        if sig and rep.known_match(sig) is not None:
+            dist["known_finding_differences"] = dist.get("known_finding_differences", 0) + 1
+            rep.violation("listed finding %s" % sig, {"suite": "twin-diff", "scenario": sc}, signature=sig)
+        elif d:
             nfail += 1
             if reported[0] < limit:
                 reported[0] += 1
@@ -430,6 +470,8 @@ def pair_suite(rep, thorough):
     rng = rep.rng
     n = 30000 if thorough else 700
     n_inter = 6000 if thorough else 220          # interactive dialogues on top of the mixed scenarios
+    n_lists = 6000 if thorough else 300          # lists with repeated entries, eager on / off
+    n_timed = 8000 if thorough else 400          # per-call timeout_ops x device latency (scripted time)
     scs = list(P.corpus())
     for f in rep.findings:
         if f.get("replay"):
@@ -443,6 +485,10 @@ def pair_suite(rep, thorough):
         scs.append(P.gen_scenario(rng))
     for i in range(n_inter):
         scs.append(P.gen_scenario(rng, family="interactive", faulty=(rng.random() < 0.15)))
+    for i in range(n_lists):
+        scs.append(P.gen_scenario(rng, family="lists", faulty=(rng.random() < 0.15)))
+    for i in range(n_timed):
+        scs.append(P.gen_scenario(rng, family="timeouts", faulty=(rng.random() < 0.15)))
     dist = _new_dist()
     nfail, sy = _run_pairs(rep, P, scs, dist, "", [0])
     if sy:
@@ -473,7 +519,7 @@ def focus_plan(focus):
         elif pair == "driver_network":
             kinds = ["network"] + list(PLATFORM_PAIRS)
         else:
-            kinds = list(ALL_KINDS)
+            kinds = list(ALL_KINDS)           # channel, base / generic driver, the decorators: every kind goes through them
         plan[fn] = (kinds, P.families_of(fn))
     return plan
 
@@ -530,7 +576,7 @@ def shrink_pair(P, sc, a, b, d):
         if dd:
             cur, ca, cb, cd = t, x, y, dd
     # device description: drop the outputs / dialogues / questions' extras the difference does not need
-    for key in ("outputs", "dialogs"):
+    for key in ("outputs", "dialogs", "latency"):
         for name in sorted(cur["device"].get(key) or {}):
             t = json.loads(json.dumps(cur))
             del t["device"][key][name]
@@ -729,13 +775,22 @@ def run(rep):
                 "(same expected response several times in a row, questions the device skips or answers it refuses so that it is back "
                 "at its prompt with events still queued, hidden answers, client knowing fewer / more questions than the device) x "
                 "interaction_complete_patterns (none / empty / prompt regex / literal / one that is already in an earlier event's "
-                "output) followed by ordinary operations; when a twin-diff obligation breaks: focus_search = the families mapped to "
+                "output) followed by ordinary operations; + the lists family: send_commands / send_configs / send_config / "
+                "send_commands_from_file / send_configs_from_file with 2-6 entries repeated in a given shape (adjacent, apart, the last "
+                "entry earlier in the list, all the same, first = last, the same line up to case / blanks, none) x eager True / False / "
+                "not given x stop_on_failed x strip_prompt, 25% of the eager ones with a block of lines after which the device prints "
+                "no prompt (banner / certificate / macro text) whose lines repeat the last entry; + the timeouts family: connection "
+                "timeout_ops in {0, 0.35, 2.1, 20.1} x per-call timeout_ops (not given / None / 0 / 0.0 / the connection's / 0.05 ... "
+                "200.1) on every send_* operation x 1-5 device lines with a latency of 0.25 / 1 / 10 / 100 s, in scripted time "
+                "(deadlines never coincide with an answer: latencies are multiples of 0.25 s, timeouts are not); when a twin-diff obligation breaks: focus_search = the families mapped to "
                 "the changed function (c06_pairs.FN_FAMILY) on the driver kinds that reach it, up to 8 (thorough 24) extra seeds; "
                 "telnet: grammar + malformed streams, every single cut + 1-byte + random cuts, both real transports; "
                 "non-trivial = the device executed at least one line / more than one event / at least one command; "
                 "distinct = whole scenario")
     rep.extra_assumptions = [
         "asyncio scheduler, wait_for cancellation and thread/signal timing are observed, not modelled",
+        "time in the timeout scenarios is scripted (c06_pairs.VirtualLoop clock for asyncio.wait_for / sleep; c06_pairs.VSignal / VTime "
+        "in place of scrapli.decorators' signal / time modules for the sync SIGALRM timer), device latency is paid inside the transports' reads",
         "token normaliser parameters (drop async/await; twin-name rename table) and the committed difference list harness/c06_allowed.json",
     ]
 
@@ -794,8 +849,8 @@ MANIFEST = {
     "text": "Coq (props/C06.v, axiom-free): (1) sigs_ok_sound / fns_ok_sound / allowed_exact_sound — the vm_compute-decided tables regenerated "
             "from the source imply, for all 11 class pairs (channel, base/generic/network drivers, five platform drivers, the two Telnet "
             "transports + their argument classes), that every public attribute of the sync class exists on the asyncio class with the same "
-            "kind and parameter list (names, order, kinds incl. keyword-only, defaults) and conversely, and that each of the 75 paired functions "
-            "is token-identical after dropping async/await and renaming twin names, or is on the committed difference list "
+            "kind and parameter list (names, order, kinds incl. keyword-only, defaults) and conversely, and that each of the 77 paired functions "
+            "(75 of the module pairs + the function / coroutine variants of the two decorators of scrapli/decorators.py) is token-identical after dropping async/await and renaming twin names, or is on the committed difference list "
             "(harness/c06_allowed.json, reason + class per entry) with exactly the reviewed diff hash; the list has no stale entry. "
             "(2) auth_stutter_invariant and login_sync_eq_async: for ALL match predicates that reject the empty buffer, ALL answers and ALL read "
             "histories, inserting empty reads / poll expiries anywhere changes neither the writes nor the outcome of the login loop, hence "
@@ -803,7 +858,10 @@ MANIFEST = {
             "refuted by a vm_compute witness, with the partial statement for error-free histories. "
             "PARTIAL: equality of bytes sent / results / exception classes of the full driver stacks is OBSERVED on paired SimDevice scenarios "
             "(ops x devices x chunkings x faults, incl. multi-event interactive dialogues: repeated expected responses, "
-            "interaction_complete_patterns, questions the device skips with events still queued, hidden inputs), on both real Telnet "
+            "interaction_complete_patterns, questions the device skips with events still queued, hidden inputs; command / config lists "
+            "with repeated entries under eager on / off through send_commands / send_configs / send_config / the *_from_file variants, "
+            "incl. lines after which the device prints no prompt; per-call timeout_ops values x connection timeout_ops x device latency "
+            "on every send_* operation, so that one stack timing out and the other not is a difference in results), on both real Telnet "
             "transports over scripted sockets and by two runtime probes, comparing the two stacks with each other; it is not a theorem. "
             "A broken twin-diff obligation for function F triggers a search over the scenario families that exercise F with extra seeds.",
     "note": "Trusted: Coq kernel + vm_compute; gen/gen_twins.py (inspect/ast/tokenize of the current tree; the diff hash is computed there); the "
@@ -813,10 +871,18 @@ MANIFEST = {
             "20 ms wait_for expiries (patterns restricted to literals; regexes are C09's). The interactive-dialogue scenarios (send_interactive / send_inputs_interact over "
             "c06_pairs.DialogDevice) are oracle-only: there is no Coq model of the interact loop, its sync/asyncio equality rests on the token "
             "identity obligation of Channel.send_inputs_interact plus the direct comparison of the two real stacks; the function -> scenario "
-            "family map (c06_pairs.FN_FAMILY) is hand-written, an unmapped function gets every family. Not modelled: asyncio scheduler, cancellation inside "
+            "family map (c06_pairs.FN_FAMILY) is hand-written, an unmapped function gets every family. The repeated-entry lists and the "
+            "timeout scenarios are oracle-only as well (no Coq model of send_commands' eager selection or of the timeout decorators; the "
+            "decorators' two variants are in the twin table: timeout_modifier token-identical, timeout_wrapper on the difference list). "
+            "Time in the timeout scenarios is scripted, not real: the asyncio batch runs on an event loop whose clock jumps to the next "
+            "timer when the loop would block (asyncio.wait_for / sleep unchanged), the sync decorator's `signal` and `time` module "
+            "attributes are replaced by a scripted SIGALRM timer whose handler is called from the transport's blocking read when the "
+            "device's latency passes the deadline; the worker-thread variant of the sync timeout (system / telnet transports, non-main "
+            "threads) is not exercised. Not modelled: asyncio scheduler, cancellation inside "
             "transport reads, signal/thread timeouts, real sockets. Known findings (listed, still reported): sync Telnet stops answering after 10 "
             "negotiation commands while asyncio keeps answering; a refused Telnet connection raises ScrapliConnectionNotOpened (sync) vs "
-            "ScrapliConnectionError (asyncio).",
+            "ScrapliConnectionError (asyncio); timeout_ops expiring inside send_and_read raises ScrapliConnectionNotOpened (sync: the "
+            "handler's ScrapliTimeout is swallowed by the read loop's suppress) vs ScrapliTimeout (asyncio).",
     "technique": "reflection (boolean decision procedures proved sound, run by vm_compute over tables regenerated from the source) + invariant proof "
                  "(settled buffer) for stutter invariance of the login loops + differential execution of the sync and asyncio stacks",
 }
